@@ -241,6 +241,7 @@ def _r12h(rep):
             rep.unknown(f"R12h: {qn}: {core.norm(str(e_), 140)}")
     _r12k(rep)
     _r12n(rep)
+    _r12o(rep)
     from rules import shared_readonly
 
     from rules import shared_viewupdate
@@ -286,6 +287,65 @@ def _r12h(rep):
             ok_pos = ok_pos and len(init) == 1 and core.src(init[0].value) == "0"
     rep.instance("R12h", GV, f"{G}._calculate_group_velocity_at_q", "gv[pos : pos + len(deg)] = perturb(ddms, eigvecs[:, deg]); pos += len(deg)", ok_pos, "the velocities of a degenerate set are not stored at the positions of its bands", line=cq.lineno)
 
+
+
+def _r12o(rep):
+    """The compiled derivative driver computes the block of every ordered atom pair, on both of its arms."""
+    from engine import cast, cenum
+
+    DDMC = "c/derivative_dynmat.c"
+    rep.rule("R12o", "derivative driver: the per-pair kernel is called for every ordered pair (i, j) of primitive-cell atoms exactly once, on the OpenMP and on the serial arm (iteration space enumerated for 1, 2, 3 atoms, with and without NAC): the symmetrisation that follows averages block (i, j) with the conjugate transpose of block (j, i), which is the derivative of the Hermitian matrix that is diagonalised only if both were computed -- force constants without index-permutation symmetry are allowed", 12)
+    tu = cast.load(DDMC)
+    fn = tu.functions.get("ddm_get_derivative_dynmat_at_q")
+    if fn is None:
+        raise AnalysisError("anchor vanished: ddm_get_derivative_dynmat_at_q")
+    pnames = [p_.get("name") for p_ in cast.params(fn)]
+    ints = [p_.get("name") for p_ in cast.params(fn) if "*" not in cast.qtype(p_) and "[" not in cast.qtype(p_) and cast.is_int_type(cast.qtype(p_))]
+    # roles: the atom count is the integer parameter the per-pair kernel receives too; the flags are the integers tested alone
+    callee = "get_derivative_dynmat_at_q"
+    cfn = tu.functions.get(callee)
+    if cfn is None:
+        raise AnalysisError(f"anchor vanished: {callee}")
+    flags = []
+    for x in cast.walk(fn):
+        if x.get("kind") == "IfStmt":
+            c = cast.strip(cast.kids(x)[0])
+            if c.get("kind") == "DeclRefExpr" and cast.ref_name(c) in ints:
+                if cast.ref_name(c) not in flags:
+                    flags.append(cast.ref_name(c))
+    sizes = [n_ for n_ in ints if n_ not in flags]
+    if len(sizes) < 1 or not flags:
+        raise AnalysisError(f"R12o: integer parameters of the driver not recognised (sizes {sizes}, flags {flags})")
+    # positions of (i, j) in the call: the two arguments that vary over the enumeration
+    import itertools
+
+    for n_at in (1, 2, 3):
+        for fl in itertools.product((0, 1), repeat=len(flags)):
+            env = {s_: (n_at if k_ == 0 else 2 * n_at) for k_, s_ in enumerate(sizes)}
+            env.update(dict(zip(flags, fl)))
+            en = cenum.enumerate_stmt(cast.body(fn), env, where=f"ddm_get_derivative_dynmat_at_q [{env}]")
+            calls = [a for c_, a in en.calls if c_ == callee]
+            if not calls:
+                pairs, shown = [], "<no call>"
+            else:
+                varying = [k_ for k_ in range(len(calls[0])) if calls[0][k_] is not None and (len({c[k_] for c in calls}) > 1 or n_at == 1)]
+                # the pair indices are the first two integer arguments that are not sizes / flags passed through
+                passthrough = {k_ for k_ in range(len(calls[0])) if all(c[k_] == calls[0][k_] for c in calls) and n_at > 1}
+                idx = [k_ for k_ in range(len(calls[0])) if calls[0][k_] is not None and k_ not in passthrough][:2] if n_at > 1 else None
+                if n_at == 1:
+                    pairs = [(0, 0)] * len(calls)
+                else:
+                    if idx is None or len(idx) != 2:
+                        raise AnalysisError("R12o: the pair indices among the arguments of the per-pair kernel are not recognised")
+                    pairs = [(c[idx[0]], c[idx[1]]) for c in calls]
+                shown = f"{len(calls)} calls"
+            want = sorted(itertools.product(range(n_at), repeat=2))
+            ok = sorted(pairs) == want
+            missing = sorted(set(want) - set(pairs))
+            dup = len(pairs) != len(set(pairs)) if n_at > 1 else len(pairs) != 1
+            rep.instance("R12o", DDMC, "ddm_get_derivative_dynmat_at_q", f"{n_at} atom(s), {dict(zip(flags, fl))}: pairs handed to {callee}: {shown}", ok,
+                         f"with {n_at} atoms and {dict(zip(flags, fl))} the per-pair kernel is called for {sorted(set(pairs))}" + (f", not for {missing}" if missing else "") + (" (some pair more than once: the kernel adds to the output)" if dup and not missing else "") + ": the blocks that are not computed stay zero, and what the symmetrisation makes of them is not the derivative of the Hermitian dynamical matrix unless the force constants happen to be symmetric under exchange of the two atoms",
+                         line=tu.line(fn))
 
 
 def _r12n(rep):
@@ -669,6 +729,9 @@ def selftest():
     V = []
     b = lambda name, file, old, new, rule, expect="", **kw: V.append(dict(name=name, kind="break", file=file, old=old, new=new, rule=rule, expect=expect, **kw))
     n = lambda name, file, old, new, **kw: V.append(dict(name=name, kind="neutral", file=file, old=old, new=new, **kw))
+    DDMC_ = "c/derivative_dynmat.c"
+    b("derivative driver computes the upper triangle of pairs only", DDMC_, "            for (j = 0; j < num_patom; j++) {\n                get_derivative_dynmat_at_q(derivative_dynmat, i, j, ddnac, dnac,", "            for (j = i; j < num_patom; j++) {\n                get_derivative_dynmat_at_q(derivative_dynmat, i, j, ddnac, dnac,", "R12o", "ddm_get_derivative_dynmat_at_q")
+    n("derivative driver: serial arm flattened like the parallel one", DDMC_, "        for (i = 0; i < num_patom; i++) {\n            for (j = 0; j < num_patom; j++) {\n                get_derivative_dynmat_at_q(derivative_dynmat, i, j, ddnac, dnac,\n                                           is_nac, num_patom, num_satom, fc, q,\n                                           lattice, svecs, multi, mass, s2p_map,\n                                           p2s_map);\n            }\n        }", "        for (ij = 0; ij < num_patom * num_patom; ij++) {\n            j = ij / num_patom;\n            i = ij % num_patom;\n            get_derivative_dynmat_at_q(derivative_dynmat, i, j, ddnac, dnac,\n                                       is_nac, num_patom, num_satom, fc, q,\n                                       lattice, svecs, multi, mass, s2p_map,\n                                       p2s_map);\n        }")
     b("Grueneisen mesh receives the compressed crystal as dynmat_plus", "phonopy/api_gruneisen.py", "            self._phonon_plus.dynamical_matrix,\n            self._phonon_minus.dynamical_matrix,\n            mesh,", "            self._phonon_minus.dynamical_matrix,\n            self._phonon_plus.dynamical_matrix,\n            mesh,", "R12n", "set_mesh")
     b("chain rule loses the 1/2", GV, "                gv[i, :] *= self._factor**2 / f / 2", "                gv[i, :] *= self._factor**2 / f", "R12a", "gv[i, :]")
     b("chain rule with one factor", GV, "                gv[i, :] *= self._factor**2 / f / 2", "                gv[i, :] *= self._factor / f / 2", "R12a", "gv[i, :]")
